@@ -111,6 +111,12 @@ impl Report {
 pub fn write_replay(dir: &str, engine: &str, f: &Found, tier: &str) -> String {
     let h = crate::pool::hash128(f.sig.as_bytes());
     let path = format!("{dir}/{}-{:08x}.json", f.prop, (h as u32));
+    // a plain unit test for history findings (text / return-value divergences show up in it;
+    // heap-accounting findings need the shadow heap and are replayed with `./check replay`)
+    let unit_test = crate::plans::profile_by_name(f.profile).map(|prof| {
+        let ops: Vec<crate::pool::Op> = f.hist_ids.iter().map(|&i| prof.table[i as usize]).collect();
+        crate::unittest::unit_test(&format!("replay_{}_{:08x}", f.prop.to_lowercase(), h as u32), prof.k, &ops)
+    });
     let v = json!({
         "engine": engine,
         "property": f.prop,
@@ -122,6 +128,7 @@ pub fn write_replay(dir: &str, engine: &str, f: &Found, tier: &str) -> String {
         "detail": f.detail,
         "occurrences_in_run": f.count,
         "how_to_replay": format!("./check replay {path}"),
+        "unit_test": unit_test,
     });
     let _ = std::fs::create_dir_all(dir);
     let _ = std::fs::write(&path, serde_json::to_string_pretty(&v).unwrap());
